@@ -267,6 +267,36 @@ def run(prog, check):
     check.ob('C20.R2', '%s::template-sweep-loop' % gen_cls.key, ok_loop, '%s:%d' % (gen_cls.module.rel, tmpl.lineno),
              'the generated sweep iterates until CalcError <= Err_Tolerance and raises at the cap' if ok_loop else
              'the generated sweep loop lost its error test or its cap', 'a non-converging block')
+    # ---- R4: the generated sweep cannot report a period whose error measure is NaN (same rule as C02.R1) ------------
+    from .C02 import tv, mentions
+    if runstep:
+        rs = runstep[0]
+        for node in ast.walk(rs):
+            for ch in ast.iter_child_nodes(node):
+                ch._parent = node
+        gr = cfgmod.CFG(rs)
+        loops_t = [w for w in ast.walk(rs) if isinstance(w, ast.While) and 'Err_Tolerance' in unparse(w.test)]
+        okn, whyn = False, 'sweep loop not found in the template'
+        if loops_t:
+            w = loops_t[0]
+            meas = [x.id for x in ast.walk(w.test) if isinstance(x, ast.Name)]
+            E = meas[0] if meas else None
+            inside = set(id(x) for x in ast.walk(w))
+            starts = [n for n in gr.nodes if n.kind == 'stmt' and id(n.ast) in inside and isinstance(n.ast, ast.Assign) and
+                      any(isinstance(t, ast.Name) and t.id == E for t in n.ast.targets)]
+
+            def edge_ok(a, b, lab):
+                na = gr.nodes[a]
+                if na.kind == 'test' and mentions(na.ast, E):
+                    return lab in tv(na.ast, E)
+                return True
+            seen_n = gr.reach(starts, avoid={gr.raise_exit.id}, edge_ok=edge_ok)
+            okn = gr.exit.id not in seen_n
+            whyn = ('with %s = NaN the generated step cannot finish normally (stop test `%s`)' % (E, unparse(w.test))) if okn else \
+                ('stop test `%s`: a NaN %s (overflowed iterates) ends the loop and the period is unpacked as solved' % (unparse(w.test), E))
+        check.ob('C20.R4', '%s::template-NaN-safe-stop' % gen_cls.key, okn, '%s:%d' % (gen_cls.module.rel, tmpl.lineno), whyn,
+                 'a block whose iterates overflow, e.g. x = 1000*x + 1: the in-process solver raises, the generated module returns inf')
+    check.floor('C20.R4', 1)
     # ---- R3 ----------------------------------------------------------------------------------------
     acc = discover_accessors(prog)
     base = [f for f in acc['renderer'] if f.cls is not None and f.cls.name == 'BaseSolver']
